@@ -45,6 +45,16 @@ section still claims the address and has its bytes, the image holds zeros there)
 `F17.tls_witness_domain_otherwise` (every other hypothesis of save_load_save_flat holds of the witness).  Registered in
 known_findings.json (`c05:image-bytes:tls-in-load`, corpus/c05/f17-tls-image-lost.case); not repaired: the membership rule
 is the one property C02 states, a writer-side repair is not small.
+CLOSED-FORM DOMAIN (Lemmas/LayoutSmall.lean, Props/C04Small.lean, Props/C06Small.lean): the `layoutNW (preSave o) hd`
+clause of `ComposeDomain` / `FlatDomain` / `NestedDomain` follows from plain bounds on the input, `SmallObject o` (ELF64;
+< 2^16 sections and segments; section sizes and alignments, segment alignments < 2^40; a member with an explicit
+address lies in [p_vaddr, p_vaddr + 2^40)) - `smallObject_layoutNW`, `Compose.composeDomain_of_small`.  `noWrap64InB`
+(NoWrap64 of the OUTPUT) in closed form for the FLAT domain: `C04.noWrap64_of_small_flat` - FlatDomain + SmallObject +
+`SmallAddrs2` (addresses, offsets, segment vaddr < 2^62; index-0 / SHT_NULL sections at offset 0; < 2^16 members) +
+p_memsz < 2^62 => `NoWrap64 r.obj.secs r.obj.segs`, the hypothesis `hw` of `loaded_satisfies_Loaded_flat` /
+`reload_resave_fields_flat` (and of C06 `save_load_save_flat`, C20 `validate_silent_reloaded_flat`).  For nested
+segments `noWrap64InB` remains a Bool check that runs the layout (section half closed-form:
+`C04.save_sections_noWrap_small`) - see families/c04.py.
 Only covered by correspondence/oracle: `Loaded` for the re-saved form of a LOADED (not created) object with
 nested segments, equality (not only >=) of reloaded memory sizes, ELF32 equidistance.
 Correspondence: family load.  Oracle: object 0 loads the image and is
@@ -90,8 +100,11 @@ THEOREMS = ["ElfioVerif.C05.save_writes_fields",
             "ElfioVerif.Compose.loaded_satisfies_Loaded_flat_input",
             "ElfioVerif.F17.image_bytes_tls_witness",
             "ElfioVerif.F17.tls_witness_outside_MemberDomain",
-            "ElfioVerif.F17.tls_witness_domain_otherwise"]
-EXTRA_IMPORTS = ["ElfioVerif.Props.Compose", "ElfioVerif.Props.Compose2", "ElfioVerif.Props.F17"]
+            "ElfioVerif.F17.tls_witness_domain_otherwise",
+            "ElfioVerif.smallObject_layoutNW_preSave",
+            "ElfioVerif.Compose.composeDomain_of_small",
+            "ElfioVerif.C04.noWrap64_of_small_flat"]
+EXTRA_IMPORTS = ["ElfioVerif.Props.Compose", "ElfioVerif.Props.Compose2", "ElfioVerif.Props.F17", "ElfioVerif.Props.C06Small"]
 SITES = ["save_", "lsws", "lst_", "lseg", "wsd", "load_s", "sec32_load", "sec64_load"]
 RULE = ("well-formed images whose segment contents are covered by sections (encoder-built linker-like images in 4 "
         "configurations, some with a thread-local data section inside a PT_LOAD with/without PT_TLS; bundled examples "
